@@ -152,6 +152,32 @@ func checkC15(d *Driver, res *Result) {
 		rx.AllowAnyErrorForUnknown = true
 	}
 	d.StdReplyCheck("C15", rx)
+	// "later requests for that node are served over a new connection": the last client only starts when every planned fault
+	// has happened, the proxy has noticed every lost connection (closed its descriptor) and every node is reachable again; the
+	// proxy may not turn its requests away (no ban, back-off or stale
+	// connection state may outlive the outage). Not applicable when slots were handed to a node the proxy does not know.
+	if len(d.P.Topos) == 1 && len(d.Clients) > 0 {
+		lc := d.Clients[len(d.Clients)-1]
+		allUp := true
+		for _, n := range d.C.Nodes {
+			allUp = allUp && n.Up
+		}
+		for _, e := range d.P.Events {
+			if e.Kind == "rst-at-write" {
+				allUp = false // an armed reset strikes at some later write, possibly one of this client's own: not "after the fault"
+			}
+		}
+		if lc.Plan.StartAfterEvents && allUp && lc.CleanStart {
+			for i, rp := range lc.Replies {
+				if isProxyError(rp) && string(rp) != RTimeout {
+					d.violate("C15", "not-served-after-recovery", map[string]string{"got": strings.TrimSpace(string(clip(rp, 40)))},
+						"client %d started after the last fault with every node reachable; its request %d (%s) was answered %q instead of being served over a new connection",
+						lc.Idx, i, lc.Plan.Reqs[i].Cmd, clip(rp, 60))
+					break
+				}
+			}
+		}
+	}
 	d.Counters["c15_rst_at_write_fired"] = d.K.Stats.RstAtWrite
 	faults := d.Counters["backend_conn_killed"] + d.Counters["ev_set-topo"] + d.K.Stats.RstAtWrite
 	res.Nontrivial = faults > 0
